@@ -235,6 +235,16 @@ impl ModuleType {
 
         let mut export = input.user_data().get_export_ref();
 
+        // A name is registered as an export once. The interpreter refuses a second registration, which
+        // would stop the module in the middle of its initialisation.
+        let double_export = |span: Span, name: &str| {
+            new_err(
+                span,
+                &input.user_data().get_source_file_name(),
+                format!("`{name}` is already exported from this module\n\t+ hint: an exported variable stays exported, assign to it without `export`"),
+            )
+        };
+
         for child in input.children() {
             if child.as_rule() == Rule::declaration {
                 let child = child
@@ -309,6 +319,17 @@ impl ModuleType {
                                 "Gen. mod {:?} -- adding assignment {assignment:?}",
                                 input.user_data().source_path()
                             );
+
+                            if export.contains(assignment.name()) {
+                                // `export name: type = value`: point at the name
+                                let name_span = child
+                                    .children()
+                                    .last()
+                                    .and_then(|name_type_value| name_type_value.children().next())
+                                    .map_or(child.as_span(), |name| name.as_span());
+
+                                return Err(vec![double_export(name_span, assignment.name())]);
+                            }
 
                             export.add(assignment)
                         }
